@@ -79,6 +79,15 @@ partial def asExpr (j : Json) : Except String (Except String (EqExpr Rat)) := do
       pure (do let a ← a; let b ← b; pure (EqExpr.sub a b))
   | _ => .error "!bad-arg:t"
 
+def asStep (j : Json) : Except String Step := do
+  let t ← getStr j "t"
+  match t with
+  | "scale" => do pure (Step.scale (← getInt j "n") (← getNat j "i"))
+  | "neg" => do pure (Step.neg (← getNat j "i"))
+  | "add" => do pure (Step.add (← getNat j "i") (← getNat j "j"))
+  | "sub" => do pure (Step.sub (← getNat j "i") (← getNat j "j"))
+  | _ => .error "!bad-arg:t"
+
 def showOptInt : Option Int → String
   | none => "inf"
   | some i => toString i
@@ -103,6 +112,19 @@ def h : Handler := fun op j =>
         | .ok v => asExpr v
         | _ => .error "!bad-arg:tree")
       pure (showRes (do let t ← t; t.eval))
+  | "history" => do
+      let pool ← (← getArr j "pool").mapM asEquil
+      let steps ← (← getArr j "steps").mapM asStep
+      let bad := steps.zipIdx.any fun (s, k) =>
+        let lim := pool.length + k
+        match s with
+        | .scale _ i => i ≥ lim
+        | .neg i => i ≥ lim
+        | .add i j => i ≥ lim || j ≥ lim
+        | .sub i j => i ≥ lim || j ≥ lim
+      if bad then .error "!bad-arg:ref" else
+      let res := runHistory pool steps
+      pure (";;".intercalate ((res.drop pool.length).map showRes))
   | "eliminate" => do
       let es ← (← getArr j "eqs").mapM asEquil
       let wrt ← getStr j "wrt"
